@@ -127,7 +127,7 @@ pub fn glue(_thorough: bool) -> Report {
     use libcnb_test::{BuildConfig, BuildpackReference, ContainerConfig, TestRunner};
     let mut r = Report::new(
         "libcnb-test's public API end to end with `pack` and `docker` replaced by argv recorders on PATH: TestRunner::build(BuildConfig {builder, app dir (fixture, or private copy with a preprocessor), buildpack references in order, env pairs}) followed by TestContext::start_container(ContainerConfig {entrypoint, command, env, exposed ports}) for configurations whose build env and container env DIFFER: exactly one `pack build` and one `docker run` are recorded and, parsed with the independent option-grammar parser, carry exactly the configured builder / path / buildpacks in order / build env, resp. entrypoint / command / container env / ports / bind mounts (host side = source); the directory given to --path exists at invocation time and holds the app incl. the preprocessor's change; the fixture directory is untouched when a preprocessor is used; non-trivial = all",
-        "8 configurations (2 app-dir modes x 2 buildpack lists x 2 container configurations)",
+        "8 configurations (2 app-dir modes x 2 buildpack lists x 2 container configurations) + an expected pack failure (one invocation) + a rebuild after a preprocessor build",
     );
     let t = tempfile::tempdir().unwrap(); let root = t.path();
     let bin = root.join("bin"); std::fs::create_dir_all(&bin).unwrap();
@@ -135,7 +135,7 @@ pub fn glue(_thorough: bool) -> Report {
     for tool in ["pack", "docker"] {
         let p = bin.join(tool);
         // besides its argv the recorder notes what the directory given to `--path` holds AT INVOCATION TIME
-        std::fs::write(&p, "#!/bin/sh\n{ printf '%s\\0' \"$(basename \"$0\")\" \"$@\"; printf '\\n--END--\\n'; } >> \"$VERIF_CMDLOG\"\nprev=\nfor a in \"$@\"; do if [ \"$prev\" = --path ]; then if [ -d \"$a\" ]; then printf 'files=%s\\n' \"$(ls -1 \"$a\" | tr '\\n' ' ')\" > \"$VERIF_CMDLOG.path\"; else printf 'missing\\n' > \"$VERIF_CMDLOG.path\"; fi; fi; prev=\"$a\"; done\nexit 0\n").unwrap();
+        std::fs::write(&p, "#!/bin/sh\n{ printf '%s\\0' \"$(basename \"$0\")\" \"$@\"; printf '\\n--END--\\n'; } >> \"$VERIF_CMDLOG\"\nprev=\nfor a in \"$@\"; do if [ \"$prev\" = --path ]; then if [ -d \"$a\" ]; then printf 'files=%s\\n' \"$(ls -1 \"$a\" | tr '\\n' ' ')\" > \"$VERIF_CMDLOG.path\"; else printf 'missing\\n' > \"$VERIF_CMDLOG.path\"; fi; fi; prev=\"$a\"; done\n[ -n \"$VERIF_PACK_FAIL\" ] && [ \"$(basename \"$0\")\" = pack ] && exit 1\nexit 0\n").unwrap();
         use std::os::unix::fs::PermissionsExt; std::fs::set_permissions(&p, std::fs::Permissions::from_mode(0o755)).unwrap();
     }
     let old_path = std::env::var("PATH").unwrap_or_default();
@@ -190,6 +190,35 @@ pub fn glue(_thorough: bool) -> Report {
         if seen != want_seen { r.violation("glue_pack_path", "the directory passed to pack build exists when pack runs and holds the app (with the preprocessor's changes in the private copy)", input.clone(), want_seen.trim().into(), seen.trim().into()); }
         if std::fs::read_dir(&fixture).unwrap().count() != 1 { r.violation("glue_fixture", "the fixture stays untouched", input.clone(), "only Procfile".into(), "changed".into()); }
     } } }
+    // ---- a build whose pack invocation FAILS as expected: still exactly ONE pack build invocation (no silent retry)
+    {
+        use libcnb_test::PackResult;
+        r.evaluations += 1; r.nontrivial += 1;
+        let _ = std::fs::remove_file(&log);
+        let mut bc = BuildConfig::new("heroku/builder:24", &fixture);
+        bc.buildpacks(vec![BuildpackReference::Other("heroku/one".to_string())]).expected_pack_result(PackResult::Failure);
+        unsafe { std::env::set_var("VERIF_PACK_FAIL", "1"); }
+        let res = std::panic::catch_unwind(std::panic::AssertUnwindSafe(|| { TestRunner::default().build(&bc, |_ctx| {}); }));
+        unsafe { std::env::remove_var("VERIF_PACK_FAIL"); }
+        let cmds = recorded(&log);
+        let n = cmds.iter().filter(|c| c.first().map(String::as_str) == Some("pack") && c.get(1).map(String::as_str) == Some("build")).count();
+        if res.is_err() || n != 1 { r.violation("glue_count", "a build configuration whose pack run fails as expected results in exactly ONE pack build invocation", "expected_pack_result(Failure), pack exits 1".into(), "no panic, 1 pack build".into(), format!("panic {}, {n} pack build invocations: {cmds:?}", res.is_err())); }
+    }
+    // ---- rebuild with the context's own configuration after a build with a preprocessor: pack sees a private copy of the FIXTURE with the preprocessor applied ONCE
+    {
+        r.evaluations += 1; r.nontrivial += 1;
+        let _ = std::fs::remove_file(&log); let _ = std::fs::remove_file(root.join("cmd.log.path"));
+        let mut bc = BuildConfig::new("heroku/builder:24", &fixture);
+        bc.buildpacks(vec![BuildpackReference::Other("heroku/one".to_string())]);
+        // every application of the preprocessor adds one more file: pre-1, pre-2, ..
+        bc.app_dir_preprocessor(|p| { let n = std::fs::read_dir(&p).unwrap().filter(|e| e.as_ref().unwrap().file_name().to_string_lossy().starts_with("pre-")).count(); std::fs::write(p.join(format!("pre-{}", n + 1)), "x").unwrap(); });
+        let res = std::panic::catch_unwind(std::panic::AssertUnwindSafe(|| { TestRunner::default().build(&bc, |ctx| { let cfg = ctx.config.clone(); ctx.rebuild(cfg, |_ctx2| {}); }); }));
+        let seen = std::fs::read_to_string(root.join("cmd.log.path")).unwrap_or_default();
+        let cmds = recorded(&log);
+        let n = cmds.iter().filter(|c| c.first().map(String::as_str) == Some("pack") && c.get(1).map(String::as_str) == Some("build")).count();
+        if res.is_err() || n != 2 || seen != "files=Procfile pre-1 \n" { r.violation("glue_rebuild_path", "a rebuild with the context's configuration gives pack a private copy of the fixture with the preprocessor applied exactly once", "build with a preprocessor, then ctx.rebuild(ctx.config.clone(), ..)".into(), "2 pack builds, second --path holds: Procfile pre-1".into(), format!("panic {}, {n} pack builds, second --path holds: {}", res.is_err(), seen.trim())); }
+        if std::fs::read_dir(&fixture).unwrap().count() != 1 { r.violation("glue_fixture", "the fixture stays untouched", "rebuild with preprocessor".into(), "only Procfile".into(), "changed".into()); }
+    }
     unsafe { std::env::set_var("PATH", old_path); }
     r.sample("build env {BUILD_ONLY, BP_LOG_LEVEL} only in pack build; container env {PORT, GREETING} only in docker run".into());
     r
